@@ -432,3 +432,84 @@ func VerifJSClassMembers(n int) {
 	vAssert(got == want, "same members: "+string(src)+" => "+string(w.buf))
 	vReach("end")
 }
+
+func jObjectShape(src []byte) (string, bool) {
+	ast, err := js.Parse(parse.NewInputBytes(src), js.Options{})
+	if err != nil || len(ast.List) != 1 {
+		return "", false
+	}
+	st, ok := ast.List[0].(*js.ExprStmt)
+	if !ok {
+		return "", false
+	}
+	be, ok := st.Value.(*js.BinaryExpr)
+	if !ok {
+		return "", false
+	}
+	obj, ok := be.Y.(*js.ObjectExpr)
+	if !ok {
+		return "", false
+	}
+	name := func(p js.PropertyName) string {
+		if p.IsComputed() {
+			return "[" + jShape(p.Computed) + "]"
+		}
+		d := p.Literal.Data
+		if p.Literal.TokenType == js.StringToken {
+			d = d[1 : len(d)-1]
+		} else if js.IsNumeric(p.Literal.TokenType) && refIsNumber(d, true) {
+			r := refParse(d)
+			return "num:" + string(r.ds) + "e" + string(rune('0'+r.e+5))
+		}
+		return string(d)
+	}
+	out := ""
+	for _, p := range obj.List {
+		if m, ok := p.Value.(*js.MethodDecl); ok {
+			out += "method(" + string(rune('0'+vB2I(m.Async))) + string(rune('0'+vB2I(m.Generator))) + string(rune('0'+vB2I(m.Get))) + string(rune('0'+vB2I(m.Set))) + ")" + name(m.Name) + ";"
+		} else if p.Name != nil {
+			out += "prop:" + name(*p.Name) + "=" + jShape(p.Value) + ";"
+		} else {
+			out += "short:" + jShape(p.Value) + ";"
+		}
+	}
+	return out, true
+}
+
+var jObjMods = []string{"", "get ", "set ", "async ", "*", "async *"}
+var jObjNames = []string{"a", "1", "\"s\"", "[b]", "get", "set", "static", "async", "0x10", "1.5", "\"a-b\"", "\"b\"", "1e3", "\"get\""}
+
+// VerifJSObjectMembers (C01/C09): x={M1,M2} with each member a property or a method under 6 modifier forms and 14 name
+// forms: the output has members of the same kind and name (canonical numeric keys aside, see VerifJSObjectKey).
+func VerifJSObjectMembers(n int) {
+	src := []byte("x={")
+	for i := 0; i <= n; i++ {
+		if i > 0 {
+			src = append(src, ',')
+		}
+		mod := jObjMods[vChoice("mod"+string(rune('0'+i)), len(jObjMods))]
+		nm := jObjNames[vChoice("name"+string(rune('0'+i)), len(jObjNames))]
+		if vBool("method" + string(rune('0'+i))) {
+			arg := ""
+			if mod == "set " {
+				arg = "v"
+			}
+			src = append(src, mod+nm+"("+arg+"){}"...)
+		} else {
+			vAssume(mod == "")
+			src = append(src, nm+":c"...)
+		}
+	}
+	src = append(src, "};"...)
+	want, ok := jObjectShape(src)
+	vAssume(ok)
+	w := &vWriter{}
+	err := (&Minifier{}).Minify(nil, w, &vReader{b: append([]byte(nil), src...)}, nil)
+	vReach("after-call")
+	vOutput("out", w.buf)
+	vAssert(err == nil, "accepted")
+	got, ok2 := jObjectShape(append([]byte(nil), w.buf...))
+	vAssert(ok2, "output parses to x={...}")
+	vAssert(got == want, "same members: "+string(src)+" => "+string(w.buf))
+	vReach("end")
+}
